@@ -196,8 +196,24 @@ class Program:
             from . import alpha
 
             ref = alpha.load_ref()
-            self._new_funcs = {q for q in self.funcs if q not in ref} if ref else set()
+            fresh = {q for q in self.funcs if q not in ref} if ref else set()
+            # a function of the reference tree that is gone while a function of the same name appeared elsewhere in
+            # the same module was MOVED (method <-> module-level function), not extracted: it is not copied into its
+            # call sites, rules that ask for the old name get the new one
+            def last(q: str) -> str:
+                return q.rsplit(".", 1)[-1].rsplit(":", 1)[-1]
+
+            gone: dict[tuple[str, str], int] = {}
+            for q in ref or {}:
+                if q not in self.funcs and "<locals>" not in q:
+                    gone[(q.split(":")[0], last(q))] = gone.get((q.split(":")[0], last(q)), 0) + 1
+            self._moved_funcs = {q for q in fresh if "<locals>" not in q and gone.get((q.split(":")[0], last(q))) == 1 and sum(1 for f in fresh if f.split(":")[0] == q.split(":")[0] and last(f) == last(q)) == 1}
+            self._new_funcs = fresh - self._moved_funcs
         return self._new_funcs  # type: ignore[return-value]
+
+    def moved_functions(self) -> set[str]:
+        self.new_functions()
+        return getattr(self, "_moved_funcs", set())
 
     def _index_module(self, mod: Module) -> None:
         assigned: dict[str, int] = {}
@@ -286,6 +302,14 @@ class Program:
         if not qualname.startswith("ngo"):
             qualname = "ngo." + qualname
         if qualname not in self.funcs:
+            # a method that became a module-level function or a static method of another class (or the reverse): the
+            # same name somewhere else in the same module, once
+            mod_, _, rest_ = qualname.partition(":")
+            last_ = rest_.rsplit(".", 1)[-1]
+            moved = [q for q in self.moved_functions() if q.startswith(mod_ + ":") and q.rsplit(".", 1)[-1].rsplit(":", 1)[-1] == last_]
+            if len(moved) == 1:
+                self.folded[qualname] = moved[0]
+                return self.funcs[moved[0]]
             folded = self._folded_into(qualname)
             if folded is not None:
                 return folded
